@@ -471,11 +471,11 @@ class ConcurrentBlocks(SubCheck):
             caches = [base] + [diskcache.Cache(path, timeout=0) for _ in range(n - 1)]
             return caches, caches
 
-        calls, sched = run_scheduled(env, case['progs'], case['schedule'], open_clients, do_op, 'C06', warm=lambda c: c._sql, final_ops=c05.FINAL_OPS[:4])
+        calls, sched = run_scheduled(env, case['progs'], case['schedule'], open_clients, do_op, 'C06', warm=lambda c: c._sql, final_ops=c05.FINAL_OPS[:7])
         if sched.limit_hit:
             return {'nontrivial': False, 'classes': ['step-limit']}
         mark_interleaved(calls, sched.trace)
-        init_state = tuple(sorted(case['init'].items()))
+        init_state = c05.init_state_of(case['init'])
         scans = [c for c in calls if c.op[0] == 'list']
         lin = [c for c in calls if c.op[0] != 'list']
         for c in lin:
@@ -484,7 +484,7 @@ class ConcurrentBlocks(SubCheck):
         block = [c for c in lin if c.op[0] == 'block'][0]
 
         def skippable(c):
-            if c.op[0] in ('get', 'getitem') and c05.is_miss(c):
+            if c.op[0] in ('get', 'getitem', 'getexp') and c05.is_miss(c):
                 k = c05.op_key(c.op)
                 for o in lin:
                     if o is c or o.client == c.client or not overlaps(o, c):
@@ -533,11 +533,12 @@ class ProcessBlocks(ConcurrentBlocks):
             c._sql
             return c
 
-        calls, run = run_scheduled_procs(env, case['progs'], case['schedule'], setup, make_client, do_op, 'C06', final_ops=c05.FINAL_OPS[:4])
+        progs = case['progs']
+        calls, run = run_scheduled_procs(env, progs, case['schedule'], setup, make_client, do_op, 'C06', final_ops=c05.FINAL_OPS[:7])
         if run.limit_hit:
             return {'nontrivial': False, 'classes': ['step-limit']}
         mark_interleaved(calls, run.trace)
-        init_state = tuple(sorted(case['init'].items()))
+        init_state = c05.init_state_of(case['init'])
         lin = [c for c in calls if c.op[0] != 'list']
         for c in lin:
             if c.result[0] == 'exc' and c.result[1] not in ('KeyError',):
@@ -545,7 +546,7 @@ class ProcessBlocks(ConcurrentBlocks):
         block = [c for c in lin if c.op[0] == 'block'][0]
 
         def skippable(c):
-            if c.op[0] in ('get', 'getitem') and c05.is_miss(c):
+            if c.op[0] in ('get', 'getitem', 'getexp') and c05.is_miss(c):
                 k = c05.op_key(c.op)
                 for o in lin:
                     if o is c or o.client == c.client or not overlaps(o, c):
